@@ -28,6 +28,7 @@ pub mod c14;
 pub mod c15;
 #[cfg(feature = "hooks")]
 pub mod c16;
+pub mod replay;
 pub mod shared;
 
 pub fn is_worker(what: &str) -> bool {
@@ -40,6 +41,7 @@ pub fn run_worker(what: &str, ctx: &Ctx, extra: &[String]) {
         "probe-worker" => crate::common::on_big_stack(|| probe(extra)),
         "c14-worker" => c14::worker(ctx),
         "c09-worker" => crate::common::on_big_stack(c09::worker),
+        "replay-worker" => crate::common::on_big_stack(replay::worker),
         _ => {
             eprintln!("unknown worker {what}");
             std::process::exit(3);
